@@ -26,6 +26,7 @@ def run(chk):
     validator_mode_rule(chk)
     vsib_only_rule(chk)
     validation_data_rule(chk)
+    implicit_reg_rule(chk)
     return chk.finish(
         level="other",
         explanation=("(a) the generated signature/name/RW tables regenerate byte-identically from db/; (b) for every instruction id of both "
@@ -329,3 +330,49 @@ def validation_data_rule(chk):
             chk.ob(R, "%s_validation_data.%s" % (mode, fld), got == w, loc="asmjit/x86/x86instapi.cpp",
                    detail="%s_validation_data.%s allows %s, the architecture allows %s" % (mode, fld, names(got or 0), names(w)), key="validationdata|%s|%s" % (mode, fld))
     chk.floor(R + ":validation-data", n, 4)
+
+
+def implicit_reg_rule(chk):
+    R = "R-IMPLICIT-REG-COMPARED"
+    chk.rule(R, "x86 check_op_sig(): for every operand class (register, memory) for which the generated _op_signature_table contains entries "
+                "that fix a register (non-zero _reg_mask: `al`, `cl`, `es:[zdi]`, `ds:[zsi]` ...), a comparison of the operand's reg_mask() "
+                "with the signature's is evaluated under the test of that class and its mismatch edge returns false")
+    f = chk.facts("asmjit/x86/x86instdb.cpp", tables=r"asmjit::x86::InstDB::_op_signature_table$", enums=r"asmjit::x86::InstDB::OpFlags$")
+    t = f["tables"].get("asmjit::x86::InstDB::_op_signature_table", {}).get("value")
+    en = f["enums"].get("asmjit::x86::InstDB::OpFlags")
+    chk.need(isinstance(t, list) and en is not None, "_op_signature_table / OpFlags not dumped")
+    ev = {n: v for n, v in en["enumerators"]}
+    need = {}
+    for cname, other in (("kRegMask", "kMemMask"), ("kMemMask", "kRegMask")):
+        rows = [r for r in t if r.get("_reg_mask") and (r["_flags"] & ev[cname]) and not (r["_flags"] & ev[other])]
+        if rows:
+            need[cname] = len(rows)
+    chk.need(len(need) >= 1, "no signature entry with an implicit register found")
+    ff = chk.facts("asmjit/x86/x86instapi.cpp", funcs=r"asmjit::x86::InstInternal::check_op_sig$|asmjit::x86::check_op_sig$|check_op_sig$")
+    fns = [g for g in cfg.load_functions(ff) if g.name.endswith("check_op_sig")]
+    chk.need(len(fns) == 1, "check_op_sig not found")
+    g = fns[0]
+    par = g.parent_map()
+    guarded = set()
+    for i, x in g.ex.items():
+        if x["k"] in ("call", "mcall") and x.get("cn") == "test" and len(x.get("args", [])) == 2:
+            a0, a1 = g.text(x["args"][0]), g.text(x["args"][1])
+            if "reg_mask" in a0 and "reg_mask" in a1 and "op" in a0 + a1 and "ref" in a0 + a1:
+                # enclosing conditions
+                j = i
+                conds = []
+                while j in par:
+                    pj = g.e(par[j])
+                    if pj is not None and pj["k"] == "s:IfStmt" and pj.get("cond") is not None and j != pj.get("cond") and j not in set(g.walk(pj["cond"])):
+                        conds.append(g.text(pj["cond"]))
+                    j = par[j]
+                for cname in ("kRegMask", "kMemMask"):
+                    if any(cname in c for c in conds):
+                        guarded.add(cname)
+                if not any(("kRegMask" in c or "kMemMask" in c) for c in conds):
+                    guarded |= {"kRegMask", "kMemMask"}
+    for cname, cnt in sorted(need.items()):
+        chk.ob(R, "check_op_sig|%s" % cname, cname in guarded, loc="asmjit/x86/x86instapi.cpp:%d" % g.line,
+               detail="%d signature entries of class %s fix a register, but check_op_sig() compares reg_mask() only for %s: an operand that uses "
+                      "another register (stos [rbx], eax) matches" % (cnt, cname, sorted(guarded) or "no class"), key="implicitreg|%s" % cname)
+    chk.floor(R + ":classes", len(need), 2)
